@@ -1491,7 +1491,11 @@ impl CanonicalizeContext {
 					}
 				}
 				if new_children.len() == 1 {
-					mathml = as_element(new_children[0]);
+					// only the base is left -- "lift" it so all the links (e.g., siblings) are correct
+					let base = as_element(new_children[0]);
+					mathml.replace_children(base.children());
+					set_mathml_name(mathml, name(&base));
+					add_attrs(mathml, &base.attributes());
 				} else {
 					mathml.replace_children(new_children);
 				}
